@@ -240,8 +240,13 @@ def minimise(scn, prop, plan, trace, klass, budget=120, wall=60.0):
 # main
 # ------------------------------------------------------------------------------------------------
 
+REPLAY_SUBDIR = None
+
+
 def write_replay(prop, rec, tag=""):
     d = os.path.join(VERIF_ROOT, "replays", prop)
+    if REPLAY_SUBDIR:
+        d = os.path.join(d, REPLAY_SUBDIR)
     os.makedirs(d, exist_ok=True)
     v = rec["violation"]
     name = f"{v['scope']}-{rec['plan'].get('run_seed', 0)}-{rec.get('digest', '')[:8]}{tag}.json"
@@ -303,10 +308,19 @@ def determinism_sample(prop, seed, tier, digests, k):
     return {"checked": len(idxs), "mismatch": mism}
 
 
-def cmd_check(prop, tier, seed, runs_cap, budget, workers, det_k, write_evidence=True):
+def cmd_check(prop, tier, seed, runs_cap, budget, workers, det_k, write_evidence=True, canary=None):
     t0 = time.time()
     scn = load_scenario(prop)
     _setup_torch()
+    if canary:
+        # sensitivity self-test: an in-memory mutant of rl4co (never applied to /repo) is installed
+        # before the workers fork; the check is expected to report a violation (exit 1)
+        cm = scn.CANARIES[canary]()
+        cm.__enter__()
+        write_evidence = False
+        det_k = 0
+        global REPLAY_SUBDIR
+        REPLAY_SUBDIR = "canary-" + canary
     if hasattr(scn, "prepare"):
         scn.prepare()
     known = load_known()
@@ -474,6 +488,8 @@ def main(argv=None):
     ap.add_argument("--replay", default=None)
     ap.add_argument("--digests", default=None)
     ap.add_argument("--det", type=int, default=None)
+    ap.add_argument("--canary", default=None, help="install the named in-memory mutant (self-test)")
+    ap.add_argument("--list-canaries", action="store_true")
     a = ap.parse_args(argv)
     if a.prop == "selftest":
         # import + determinism smoke test used by setup_cmd
@@ -482,6 +498,9 @@ def main(argv=None):
     if a.prop not in REGISTRY:
         print(f"unknown property {a.prop}", file=sys.stderr)
         return 2
+    if a.list_canaries:
+        print("\n".join(sorted(getattr(load_scenario(a.prop), "CANARIES", {}))))
+        return 0
     if a.replay:
         return cmd_replay(a.prop, a.replay)
     if a.digests:
@@ -490,4 +509,4 @@ def main(argv=None):
     if budget is None:
         budget = float(os.environ.get("VERIF_BUDGET_S", DEFAULT_BUDGET[a.tier]))
     det_k = a.det if a.det is not None else (8 if a.tier == "quick" else 64)
-    return cmd_check(a.prop, a.tier, a.seed, a.runs, budget, a.workers, det_k)
+    return cmd_check(a.prop, a.tier, a.seed, a.runs, budget, a.workers, det_k, canary=a.canary)
